@@ -68,8 +68,30 @@ var harnessDir = func() string {
 	return "/verif/harness"
 }()
 
+// droppedHarnessFiles: harness files (overlay destination -> first compile error) that do not
+// compile against the tree under check - a kernel that calls an unexported function whose
+// signature changed, say. They are left out (the other harnesses still decide), reported on
+// stdout and in the evidence; nothing else is ever dropped.
+var droppedHarnessFiles = map[string]string{}
+
 // harnessOverlay maps /verif/harness/<pkgdir>/*.go to /repo/<pkgdir>/zz_verif_*.go
 func harnessOverlay() (map[string][]byte, []string, error) {
+	ov, names, err := harnessOverlayAll()
+	if err != nil {
+		return ov, names, err
+	}
+	var kept []string
+	for _, n := range names {
+		if _, dropped := droppedHarnessFiles[n]; dropped {
+			delete(ov, n)
+			continue
+		}
+		kept = append(kept, n)
+	}
+	return ov, kept, nil
+}
+
+func harnessOverlayAll() (map[string][]byte, []string, error) {
 	ov := map[string][]byte{}
 	var names []string
 	support, err := os.ReadFile(filepath.Join(harnessDir, "support.go.tmpl"))
@@ -156,16 +178,53 @@ func loadWorld(extraOverlay map[string][]byte) (*world, error) {
 		repoMod + "/decoder/internal/walker", repoMod + "/decoder/internal/ast",
 		"github.com/hashicorp/hcl/v2/json", "runtime", "sort", "slices", "strings", "bytes", "unicode/utf8", "errors", "strconv",
 	}
-	pkgs, err := packages.Load(cfg, pats...)
-	if err != nil {
-		return nil, err
-	}
+	var pkgs []*packages.Package
 	var errs []string
-	packages.Visit(pkgs, nil, func(p *packages.Package) {
-		for _, e := range p.Errors {
-			errs = append(errs, e.Error())
+	for attempt := 0; ; attempt++ {
+		pkgs, err = packages.Load(cfg, pats...)
+		if err != nil {
+			return nil, err
 		}
-	})
+		errs = nil
+		packages.Visit(pkgs, nil, func(p *packages.Package) {
+			for _, e := range p.Errors {
+				errs = append(errs, e.Error())
+			}
+		})
+		if len(errs) == 0 || attempt >= 6 {
+			break
+		}
+		// errors inside harness files: drop those files and load again
+		dropped := false
+		for _, e := range errs {
+			file := e
+			if i := strings.Index(e, ".go:"); i >= 0 {
+				file = e[:i+3]
+			}
+			base := filepath.Base(file)
+			if _, isOverlay := ov[file]; !isOverlay || !strings.HasPrefix(base, "zz_verif_") || strings.HasPrefix(base, "zz_verif_support") || base == "zz_verif_g_common.go" {
+				continue
+			}
+			if _, seen := droppedHarnessFiles[file]; !seen {
+				droppedHarnessFiles[file] = e
+				dropped = true
+			}
+		}
+		if !dropped {
+			break
+		}
+		for f := range droppedHarnessFiles {
+			delete(ov, f)
+		}
+		var kept []string
+		for _, n := range names {
+			if _, gone := droppedHarnessFiles[n]; !gone {
+				kept = append(kept, n)
+			}
+		}
+		names = kept
+		cfg.Overlay = ov
+	}
 	if len(errs) > 0 {
 		if len(errs) > 12 {
 			errs = errs[:12]
